@@ -183,10 +183,35 @@ func (a *c02Auto) discharge(s *panicSite) string {
 		x, idx = v.X, v.Index
 	case *ssa.Index:
 		x, idx = v.X, v.Index
+	case *ssa.Slice:
+		// after-separator: s[strings.Index*(s, sep)+1:] / s[strings.LastIndex*(s, sep)+1:]
+		// with a constant, non-empty separator — the index functions return a value in
+		// [-1, len(s)-len(sep)], so the low bound lies in [0, len(s)] (documented)
+		if v.High == nil && v.Max == nil && v.Low != nil {
+			if bo, ok := v.Low.(*ssa.BinOp); ok && bo.Op == token.ADD {
+				if k, ok := bo.Y.(*ssa.Const); ok && k.Value != nil && k.Value.Kind() == constant.Int && k.Int64() == 1 {
+					if call, ok := bo.X.(*ssa.Call); ok && len(call.Call.Args) == 2 && call.Call.Args[0] == v.X {
+						switch staticCalleeName(&call.Call) {
+						case "strings.Index", "strings.LastIndex", "strings.IndexByte", "strings.LastIndexByte", "strings.IndexRune", "bytes.Index", "bytes.LastIndex", "bytes.IndexByte", "bytes.LastIndexByte":
+							sep, isK := call.Call.Args[1].(*ssa.Const)
+							if isK && sep.Value != nil && (sep.Value.Kind() != constant.String || constant.StringVal(sep.Value) != "") {
+								return "after-separator: the low bound is " + staticCalleeName(&call.Call) + "(s, constant non-empty separator) + 1 on the sliced string itself, which lies in [0, len(s)]"
+							}
+						}
+					}
+				}
+			}
+		}
+		return ""
 	default:
 		return ""
 	}
 	fn := in.Parent()
+	// index-sum-guard: x[i+c] dominated by the true edge of (i+k) < len(x), 0 <= c <= k,
+	// for a counter i that starts at a non-negative constant and never decreases
+	if why := indexSumGuard(in, x, idx); why != "" {
+		return why
+	}
 	// name-nonempty
 	if k, ok := idx.(*ssa.Const); ok && k.Value != nil && k.Value.Kind() == constant.Int && k.Int64() == 0 {
 		if ld, ok := x.(*ssa.UnOp); ok && ld.Op == token.MUL {
@@ -340,4 +365,82 @@ func instrDominatedBy(in ssa.Instruction, pat string) string {
 		}
 	}
 	return "the site is no longer dominated by a branch matching " + pat + " (dominating conditions: " + trimStr(strings.Join(seen, " ; "), 300) + ")"
+}
+
+// splitIndex: v = base + c with a non-negative constant c (c = 0 when v is not a sum).
+func splitIndex(v ssa.Value) (ssa.Value, int64) {
+	if bo, ok := v.(*ssa.BinOp); ok && bo.Op == token.ADD {
+		if k, ok := bo.Y.(*ssa.Const); ok && k.Value != nil && k.Value.Kind() == constant.Int && k.Int64() >= 0 {
+			return bo.X, k.Int64()
+		}
+		if k, ok := bo.X.(*ssa.Const); ok && k.Value != nil && k.Value.Kind() == constant.Int && k.Int64() >= 0 {
+			return bo.Y, k.Int64()
+		}
+	}
+	return v, 0
+}
+
+// nonNegativeCounter: v is a loop counter φ(c0, v+d…) with c0 >= 0 and every step >= 0.
+func nonNegativeCounter(v ssa.Value) bool {
+	phi, ok := v.(*ssa.Phi)
+	if !ok {
+		return false
+	}
+	var loop *natLoop
+	for _, l := range naturalLoops(phi.Parent()) {
+		if l.header == phi.Block() {
+			loop = l
+		}
+	}
+	if loop == nil {
+		return false
+	}
+	for i, e := range phi.Edges {
+		if loop.blocks[phi.Block().Preds[i]] {
+			lo, _, ok := offsetRange(loop, phi, e, map[ssa.Value]bool{})
+			if !ok || lo < 0 {
+				return false
+			}
+		} else {
+			k, ok := e.(*ssa.Const)
+			if !ok || k.Value == nil || k.Value.Kind() != constant.Int || k.Int64() < 0 {
+				return false
+			}
+		}
+	}
+	return true
+}
+
+func indexSumGuard(in ssa.Instruction, x, idx ssa.Value) string {
+	base, c := splitIndex(idx)
+	if !nonNegativeCounter(base) {
+		return ""
+	}
+	for d := in.Block(); d != nil; d = d.Idom() {
+		id := d.Idom()
+		if id == nil {
+			break
+		}
+		iff, ok := id.Instrs[len(id.Instrs)-1].(*ssa.If)
+		if !ok || !(len(id.Succs[0].Preds) == 1 && id.Succs[0].Dominates(in.Block())) {
+			continue
+		}
+		cmp, ok := iff.Cond.(*ssa.BinOp)
+		if !ok || cmp.Op != token.LSS {
+			continue
+		}
+		gb, k := splitIndex(cmp.X)
+		if gb != base || k < c {
+			continue
+		}
+		ln, ok := cmp.Y.(*ssa.Call)
+		if !ok {
+			continue
+		}
+		if b, ok := ln.Call.Value.(*ssa.Builtin); !ok || b.Name() != "len" || ln.Call.Args[0] != x {
+			continue
+		}
+		return "index-sum-guard: dominated by (" + base.Name() + "+" + itoa(int(k)) + ") < len of the same slice, with a counter that starts at a non-negative constant and never decreases"
+	}
+	return ""
 }
